@@ -863,6 +863,11 @@ func (obj *SparseReal64MatrixJoint3Iterator) Ok() bool {
          !(obj.s3 == nil || obj.s3.GetFloat64() == 0.0)
 }
 func (obj *SparseReal64MatrixJoint3Iterator) Next() {
+  // skip positions where all operands hold a zero
+  for obj.next() && !obj.Ok() {
+  }
+}
+func (obj *SparseReal64MatrixJoint3Iterator) next() bool {
   ok1 := obj.it1.Ok()
   ok2 := obj.it2.Ok()
   ok3 := obj.it3.Ok()
@@ -911,6 +916,7 @@ func (obj *SparseReal64MatrixJoint3Iterator) Next() {
   } else {
     obj.s3 = ConstFloat64(0.0)
   }
+  return ok1 || ok2 || ok3
 }
 func (obj *SparseReal64MatrixJoint3Iterator) Get() (Scalar, ConstScalar, ConstScalar) {
   if obj.s1 == nil {
